@@ -26,6 +26,15 @@ Protocol (one case = one schema + one Chaperone):
   map <fn>                               FoldedProtein.map on the last plain report -> valid structId err echo attempts called
   heal <max_retries> <decay> <hex,hex,…> ChaperoneLoop.heal with a scripted generator -> outcome final tagged [attempts] folded: …
   schema <spec> (again)                  another schema class of the same name on the same Chaperones
+  cochap reg:<fn>|set:<fn>|del           register_co_chaperone(S, fn) / co_chaperones[S] = fn / co_chaperones.pop(S) on the
+                                         addressed instance, for the CURRENT schema class
+  misfold <fn>|-                         assign the public attribute on_misfold (fn: ok rv r0 falsy; - = None)
+  newh <ctor> <cofn|-> <mfn|->           Chaperone(strategies=…, co_chaperones={S: fn}, on_misfold=cb)
+  [env H <fn> <text> ok <text>|raise <Class>]   what a co-chaperone does on a text (evaluated by the harness)
+  [env G <fn> <truthy> ok|raise <Class>]        truthiness of an on_misfold callback and what it does
+  fold / foldx print `hooks=[p:ok|p:raise, m:<valid>/<struct>/<err>/<rawEcho>/<confidence>/<attempts>:ok|raise]` (the user
+  callbacks invoked, in order, with the report on_misfold was handed) in front of `calls=[…]`; a fold that a callback makes
+  raise prints `raise:<Class> hooks=[…] calls=[…]`
 """
 from __future__ import annotations
 
@@ -68,6 +77,37 @@ ALL_PATTERNS = PINNED_PATTERNS + EXTRA_PATTERNS
 ALL_REPAIRS = PINNED_REPAIRS + EXTRA_REPAIRS
 STRAT_LETTERS = {"s": "STRICT", "e": "EXTRACTION", "l": "LENIENT", "r": "REPAIR"}
 CONV_SUFFIX = ["_str_to_int", "_str_to_float", "_num_to_str", "_str_to_bool", "_str_to_list"]
+
+
+def _raiser(exc):
+    def f(*_a):
+        raise exc
+    return f
+
+
+def _raise_without_brace(t):
+    if "{" not in t:
+        raise ValueError("no object in the text")
+    return t
+
+
+# co-chaperone preprocessors (pure functions of the text; "domain-specific cleanup before folding")
+CO_FNS = {
+    "id": lambda t: t,
+    "fence": lambda t: real_re.sub(r'```(?:json)?', '', t),
+    "quotes": lambda t: t.replace("'", '"'),
+    "brace": lambda t: t[t.find("{"):] if "{" in t else t,
+    "redact": lambda t: real_re.sub(r'\d+', '9', t),           # writes values the raw text does not contain
+    "upper": lambda t: t.upper(),
+    "empty": lambda t: "",
+    "rv": _raiser(ValueError("co-chaperone")),
+    "rk": _raiser(KeyError("co-chaperone")),
+    "rs": _raise_without_brace,
+}
+# on_misfold callbacks: what they do when called (None = return) and whether the object is truthy
+MISFOLD_FNS = {"ok": (None, True), "rv": (ValueError("on_misfold"), True), "r0": (RuntimeError(), True),
+               "falsy": (None, False)}
+
 OTHER_EXC = {"RecursionError": 1, "TypeError": 2, "ValueError": 3, "KeyError": 4, "AttributeError": 5,
              "IndexError": 6, "OverflowError": 7}
 WS = [0x9, 0xa, 0xb, 0xc, 0xd, 0x1c, 0x1d, 0x1e, 0x1f, 0x20, 0x85, 0xa0, 0x1680] + list(range(0x2000, 0x200b)) + \
@@ -571,7 +611,8 @@ class C11(Prop):
     thorough_deadline_s = 800
     all_branches = ["hit", "fail", "hitx:s", "hitx:e", "hitx:l", "hitx:r", "failx", "err:json", "err:validation",
                     "err:noValidJson", "err:noJson", "err:msg-jd", "err:msg-ve", "err:msg-other",
-                    "conv:0", "conv:1", "conv:2", "conv:3", "conv:4", "conv:raise", "heal:v", "heal:h", "heal:d", "map:ok", "map:raise", "map:skip"]
+                    "conv:0", "conv:1", "conv:2", "conv:3", "conv:4", "conv:raise", "heal:v", "heal:h", "heal:d", "map:ok", "map:raise", "map:skip",
+                    "hook:pre-ok", "hook:pre-raise", "hook:misfold-ok", "hook:misfold-raise"]
     assumptions = [
         "json.loads, the regex matches/substitutions of the instance's tables, schema.model_validate and the Python "
         "primitives of the coercion table are environment: arbitrary functions that return or raise (the theorems hold "
@@ -579,8 +620,10 @@ class C11(Prop):
         "model_validate on the generated schema classes, and the model must make exactly those model_validate calls",
         "re-validation of a validated structure (model_validate(structure.model_dump())) is a property of pydantic, "
         "checked by the oracle on the real code, not proved",
-        "co-chaperone preprocessors and the on_misfold callback are user callbacks outside the try block and are not "
-        "modelled; strategies are members of FoldingStrategy",
+        "co-chaperone preprocessors and the on_misfold callback are the caller's own functions: arbitrary functions that "
+        "return or raise (Hooks); a co-chaperone returns a str; an exception a callback raises leaves the fold and is not "
+        "held against 'no raw text makes folding raise'; strategies are members of FoldingStrategy; the healing loop is "
+        "modelled over an instance without callbacks",
         "the text of error messages and duration_ms are not observed",
     ]
     trusted_modelled = [
@@ -675,6 +718,46 @@ class C11(Prop):
         owns = []                # what each instance was told to use, from the protocol lines alone (for the oracle)
         ch = None
         ctor = "selr"
+        co_own = []              # per instance: {schema spec: co-chaperone name}, from the protocol lines alone
+        mf_own = []              # per instance: name of the on_misfold callback or None
+        hooklog = []             # user callbacks invoked during the current fold
+        h_done = set()
+
+        def make_co(name):
+            def co(text, _name=name):
+                try:
+                    out = CO_FNS[_name](text)
+                except Exception as e:
+                    hooklog.append({"k": "p", "fn": _name, "arg": text, "exc": e})
+                    raise
+                hooklog.append({"k": "p", "fn": _name, "arg": text, "out": out, "exc": None})
+                return out
+            return co
+
+        def make_mf(name):
+            exc, truthy = MISFOLD_FNS[name]
+
+            class Callback:
+                def __bool__(self):
+                    return truthy
+
+                def __call__(self, rep):
+                    entry = {"k": "m", "fn": name, "rep": rep, "exc": exc}
+                    try:
+                        entry.update(valid=rep.valid, structure=rep.structure, error_trace=rep.error_trace,
+                                     raw=rep.raw_peptide_chain, confidence=rep.confidence, strategy_used=rep.strategy_used,
+                                     attempts=[(a.strategy, a.success) for a in rep.attempts])
+                    except Exception as e:       # not even a report
+                        entry["broken"] = e
+                    hooklog.append(entry)
+                    if exc is not None:
+                        raise exc
+            return Callback()
+
+        def register(i):
+            while len(co_own) <= i:
+                co_own.append({})
+                mf_own.append(None)
 
         def current():
             nonlocal ch, ctor
@@ -683,7 +766,24 @@ class C11(Prop):
                 chs.append(ch)
                 owns.append(list("selr"))
                 ctor = "selr"
+            register(len(chs) - 1)
             return ch
+
+        def show_hooks(raw):
+            toks = []
+            for h in hooklog:
+                if h["k"] == "p":
+                    toks.append("p:ok" if h["exc"] is None else "p:raise")
+                elif "broken" in h:
+                    toks.append("m:broken")
+                else:
+                    atts = "+".join(self.strat_letter.get(a, "?") + show_bool(ok) for a, ok in h["attempts"])
+                    toks.append("m:" + "/".join([show_bool(h["valid"] is True),
+                                                 "none" if h["structure"] is None else str(REC.sid(h["structure"])),
+                                                 show_bool(h["error_trace"] is not None), show_bool(h["raw"] == raw),
+                                                 self.show_conf(h["confidence"]), atts])
+                                + (":ok" if h["exc"] is None else ":raise"))
+            return "hooks=[" + ",".join(toks) + "]"
 
         def emit(line, o, x=None):
             out_lines.append(line)
@@ -696,6 +796,7 @@ class C11(Prop):
                 spec = t[1]
                 S = self.factory.get(spec)
                 REC.reset_tables()
+                h_done.clear()
                 emit(line, "ok")
             elif t[0] == "new" and len(t) == 2:
                 try:
@@ -714,6 +815,50 @@ class C11(Prop):
                     chs.append(ch)
                     owns.append(list(t[1]) if t[1] not in ("none", "-") else list("selr"))
                     ctor = "".join(owns[-1])
+                    emit(line, "ok")
+                except Exception as e:
+                    emit(line, f"raise:{type(e).__name__}")
+            elif t[0] == "newh" and len(t) == 4 and (t[2] == "-" or t[2] in CO_FNS) and (t[3] == "-" or t[3] in MISFOLD_FNS):
+                try:
+                    ch = m.Chaperone(strategies=self.strategies_of(t[1]),
+                                     co_chaperones=({S: make_co(t[2])} if t[2] != "-" else None),
+                                     on_misfold=(make_mf(t[3]) if t[3] != "-" else None), silent=True)
+                    chs.append(ch)
+                    owns.append(list(t[1]) if t[1] not in ("none", "-") else list("selr"))
+                    ctor = "".join(owns[-1])
+                    register(len(chs) - 1)
+                    if t[2] != "-":
+                        co_own[-1][spec] = t[2]
+                    mf_own[-1] = t[3] if t[3] != "-" else None
+                    emit(line, "ok")
+                except Exception as e:
+                    emit(line, f"raise:{type(e).__name__}")
+            elif t[0] == "cochap" and len(t) == 2:
+                c = current()
+                i = chs.index(c)
+                how, _, fn = t[1].partition(":")
+                try:
+                    if how == "reg" and fn in CO_FNS:
+                        c.register_co_chaperone(S, make_co(fn))
+                        co_own[i][spec] = fn
+                    elif how == "set" and fn in CO_FNS:
+                        c.co_chaperones[S] = make_co(fn)
+                        co_own[i][spec] = fn
+                    elif how == "del" and not fn:
+                        c.co_chaperones.pop(S, None)
+                        co_own[i].pop(spec, None)
+                    else:
+                        emit(line, "bad-op")
+                        continue
+                    emit(line, "ok")
+                except Exception as e:
+                    emit(line, f"raise:{type(e).__name__}")
+            elif t[0] == "misfold" and len(t) == 2 and (t[1] == "-" or t[1] in MISFOLD_FNS):
+                c = current()
+                i = chs.index(c)
+                try:
+                    c.on_misfold = make_mf(t[1]) if t[1] != "-" else None
+                    mf_own[i] = t[1] if t[1] != "-" else None
                     emit(line, "ok")
                 except Exception as e:
                     emit(line, f"raise:{type(e).__name__}")
@@ -804,6 +949,28 @@ class C11(Prop):
                 REC.calls = []
                 REC.describe_schema(S)
                 REC.prepare_text(ch, raw)
+                # the user callbacks this instance should reach for this schema, from the protocol lines alone; what
+                # they do is evaluated here (they are the caller's own functions, not code under test)
+                inst_i = chs.index(ch)
+                cofn, mfn = co_own[inst_i].get(spec), mf_own[inst_i]
+                text = raw               # the text the strategies should work on
+                if cofn is not None:
+                    hk = ("H", cofn, raw, id(S))
+                    try:
+                        text = CO_FNS[cofn](raw)
+                        res_tok = None
+                    except Exception as e:
+                        text = None
+                        res_tok = "raise " + type(e).__name__
+                    if text is not None and text != raw:
+                        REC.prepare_text(ch, text)
+                    if hk not in h_done:
+                        h_done.add(hk)
+                        REC.pending.append(f"env H {cofn} {REC.text(raw)} " + (res_tok or ("ok " + REC.text(text))))
+                if mfn is not None:
+                    exc, truthy = MISFOLD_FNS[mfn]
+                    REC.pending.append(f"env G {mfn} {int(truthy)} " + ("ok" if exc is None else "raise " + type(exc).__name__))
+                del hooklog[:]
                 REC.active = True
                 err = None
                 r = None
@@ -816,7 +983,7 @@ class C11(Prop):
                 after = self.safe_stats(ch)
                 for el in REC.take_pending():
                     emit(el, "ok")
-                calls = "calls=[" + ",".join(str(i) for i in REC.calls) + "]"
+                calls = show_hooks(raw) + " calls=[" + ",".join(str(i) for i in REC.calls) + "]"
                 if REC.nondet:
                     calls += " nondeterministic-library"
                 used = []
@@ -824,8 +991,9 @@ class C11(Prop):
                     used = [k for k in "selr" if after["strategy_success"].get(STRAT_LETTERS[k].lower())
                             != before["strategy_success"].get(STRAT_LETTERS[k].lower())]
                 info = {"op": t[0], "raw": raw, "strat": t[2], "ctor": ctor, "S": S, "result": r, "error": err,
-                        "inst": chs.index(ch), "epoch": sum(1 for l in out_lines if l.split(" ")[0] in ("tables", "tune", "schema", "newsub", "new")),
-                        "used_by_stats": used}
+                        "inst": chs.index(ch), "epoch": sum(1 for l in out_lines if l.split(" ")[0] in
+                                                            ("tables", "tune", "schema", "newsub", "new", "newh", "cochap", "misfold")),
+                        "used_by_stats": used, "text": text, "hooklog": list(hooklog), "cofn": cofn, "mfn": mfn}
                 if err is not None:
                     emit(line, f"raise:{type(err).__name__} {calls}", info)
                     continue
@@ -849,6 +1017,9 @@ class C11(Prop):
             elif t[0] == "heal" and len(t) == 4:
                 outs = [unhexs(h) for h in t[3].split(",")]
                 ch = current()
+                if co_own[chs.index(ch)].get(spec) is not None or mf_own[chs.index(ch)] is not None:
+                    emit(line, "skipped-callbacks")      # the healing loop is modelled over an instance without callbacks
+                    continue
                 n_calls = [0]
 
                 def scripted(prompt, error_context=None, _outs=outs, _n=n_calls):
@@ -942,10 +1113,43 @@ class C11(Prop):
             if not x or x.get("op") not in ("fold", "foldx"):
                 continue
             raw, S, r = x["raw"], x["S"], x["result"]
-            # "No raw text makes folding raise."
+            # every report the validator hands out — also the one it hands to the caller's on_misfold callback — is judged
+            # by the same text: "when it reports invalid, no structure is returned and an error trace is", "confidence
+            # lies in [0,1] and is 1.0 only for strict"; and one fold is reported one way (not invalid to the callback and
+            # valid to the caller)
+            cb_excs = []
+            for h in x.get("hooklog", ()):
+                if h["exc"] is not None:
+                    cb_excs.append(h["exc"])
+                if h["k"] != "m":
+                    continue
+                if "broken" in h:
+                    out.append(Violation("invalid_has_no_structure_and_a_trace", "a report object", type(h["broken"]).__name__, idx))
+                    continue
+                if h["valid"]:
+                    if h["structure"] is None or not isinstance(h["structure"], S):
+                        out.append(Violation("valid_structure_is_schema_instance", f"instance of {S.__name__}",
+                                             f"on_misfold got valid=True structure={h['structure']!r}"[:200], idx))
+                elif h["structure"] is not None or not isinstance(h["error_trace"], str) or not h["error_trace"]:
+                    out.append(Violation("invalid_has_no_structure_and_a_trace", "structure None, non-empty trace",
+                                         f"on_misfold got structure={h['structure']!r} trace={h['error_trace']!r}"[:200], idx))
+                c = h["confidence"]
+                if not (isinstance(c, (int, float)) and 0.0 <= c <= 1.0):
+                    out.append(Violation("confidence_in_unit_interval", "[0,1]", f"on_misfold got confidence {c!r}", idx))
+                elif c == 1.0 and not (h["valid"] and h["strategy_used"] == FS.STRICT):
+                    out.append(Violation("confidence_one_only_for_strict", "< 1.0", f"on_misfold got confidence {c}", idx))
+                if x["error"] is None and r is not None and bool(h["valid"]) != bool(r.valid):
+                    out.append(Violation("one_fold_is_reported_one_way", f"valid={r.valid} (returned)",
+                                         f"valid={h['valid']} (handed to on_misfold)", idx))
+            # "No raw text makes folding raise."  (an exception the caller's own callback raised is the caller's)
             if x["error"] is not None:
-                out.append(Violation("folding_never_raises", "a result object", f"raise:{type(x['error']).__name__}", idx))
+                if not any(x["error"] is e for e in cb_excs):
+                    out.append(Violation("folding_never_raises", "a result object", f"raise:{type(x['error']).__name__}", idx))
                 continue
+            # the text the strategies are to work on: the raw text, or what the caller's own co-chaperone (registered for
+            # this schema on this instance, by the protocol lines) makes of it
+            if x.get("text") is not None:
+                raw = x["text"]
             eff = x["strat"] if x["strat"] not in ("none", "-") else x["ctor"]   # the instance's own list, per protocol
             enhanced = x["op"] == "foldx"
             used = None
@@ -1226,8 +1430,11 @@ class C11(Prop):
     def generate(self, rng, tier, n):
         for k in range(n):
             fields = self.rand_fields(rng, big=rng.random() < 0.04)
+            hooked = rng.random() < 0.3      # user callbacks: co-chaperones for the schema, on_misfold
+            ctor_strats = self.rand_strats(rng) if rng.random() < 0.25 else "none"
             lines = ["schema " + self.spec_of(fields),
-                     "new " + (self.rand_strats(rng) if rng.random() < 0.25 else "none")]
+                     (f"newh {ctor_strats} {self.rand_co(rng)} {self.rand_mf(rng)}" if hooked and rng.random() < 0.5
+                      else "new " + ctor_strats)]
             # a history on ONE Chaperone: several texts, changing strategy lists, repeats, resets in between;
             # in a third of the cases several Chaperones are alive and one of them has its public `strategies`
             # list edited in place
@@ -1256,6 +1463,17 @@ class C11(Prop):
                                                            "append:s", "append:r", "append:l", "remove:l"]))
                         if rng.random() < 0.6:
                             lines.append(f"use {rng.randrange(n_inst)}")
+                if hooked and rng.random() < 0.5:
+                    y = rng.random()
+                    if y < 0.45:
+                        lines.append("cochap " + rng.choice(["reg:", "reg:", "set:"]) + self.rand_co(rng, False))
+                    elif y < 0.55:
+                        lines.append("cochap del")
+                    elif y < 0.9:
+                        lines.append("misfold " + self.rand_mf(rng))
+                    elif n_inst < 4:
+                        lines.append(f"newh {rng.choice(['none', 'none', '-', 'er'])} {self.rand_co(rng)} {self.rand_mf(rng)}")
+                        n_inst += 1
                 if prev is not None and rng.random() < 0.15:
                     raw = prev
                 else:
@@ -1284,6 +1502,15 @@ class C11(Prop):
                         lines.append("map " + rng.choice(["id", "copy", "tag", "rv", "rk", "r0", "rt", "rv"]))
             lines.append("stats")
             yield {"lines": lines, "note": "random"}
+
+    @staticmethod
+    def rand_co(rng, allow_none=True):
+        names = ["id", "fence", "quotes", "brace", "brace", "redact", "redact", "upper", "empty", "rv", "rk", "rs", "rs"]
+        return rng.choice(names + (["-"] * 5 if allow_none else []))
+
+    @staticmethod
+    def rand_mf(rng):
+        return rng.choice(["ok", "ok", "ok", "rv", "r0", "falsy", "-", "-"])
 
     DECAYS = ["1/10", "1/10", "0", "1/4", "1/2", "1", "2", "1/20", "3/10", "1/8"]
 
@@ -1408,7 +1635,32 @@ class C11(Prop):
                         L += [f"fold {hexs(raw)} {st}", f"foldx {hexs(raw)} {st}"]
                     L += ["stats", "new none", f"fold {hexs(texts[0])} {st}", f"foldx {hexs(texts[0])} {st}"]
                     table_cases.append({"lines": L, "note": "instances / subclasses that re-assign the public regex tables"})
-        return [{"name": "FoldedProtein.map: function behaviours x valid/invalid reports", "cases": map_cases},
+        hook_cases = []
+        hraws = ['{"a": 1, "b": "x"}', 'Sure: ```json\n{"a": 4}\n``` ok', "so {'a': 3} there", '{"a": "four"}', "nope"]
+        for co in ["-", "id", "fence", "brace", "quotes", "redact", "rv", "rs"] + (["upper", "empty", "rk"] if tier != "quick" else []):
+            for mf in ["-", "ok", "rv", "falsy"] + (["r0"] if tier != "quick" else []):
+                for st in (["none", "s", "le"] if tier != "quick" or (co in ("-", "brace", "rs") or mf in ("ok", "rv")) else ["none"]):
+                    L = [f"schema {spec}", f"newh none {co} {mf}"]
+                    for raw in hraws:
+                        L += [f"fold {hexs(raw)} {st}", f"foldx {hexs(raw)} {st}"]
+                    L += ["stats"]
+                    hook_cases.append({"lines": L, "note": "user callbacks via the constructor: co-chaperone x on_misfold x strategies"})
+        for co in ["redact", "brace", "rv"]:
+            for mf in ["ok", "rv", "-"]:
+                clean, prose3, bad = '{"a": 12, "b": "x"}', 'so {"a": 34} ok', "nope"
+                # callbacks set on ONE of several instances through the public API after construction; the other instances,
+                # and another schema class of the same name, must not see them; then unregistered again
+                L = [f"schema {spec}", "new none", "new none", f"cochap reg:{co}", f"misfold {mf}",
+                     f"fold {hexs(clean)} none", f"foldx {hexs(clean)} none", f"fold {hexs(bad)} none", f"foldx {hexs(bad)} none",
+                     "use 0", f"fold {hexs(clean)} none", f"foldx {hexs(prose3)} none", f"foldx {hexs(bad)} none", "stats",
+                     "new none", f"foldx {hexs(clean)} none", f"fold {hexs(bad)} none",
+                     "use 1", "schema a:str,b:osd", f"foldx {hexs(clean)} none", f"fold {hexs(bad)} none",
+                     f"schema {spec}", f"foldx {hexs(prose3)} none", f"heal 1 1/10 {hexs(clean)}",
+                     "cochap del", "misfold -", f"foldx {hexs(clean)} none", f"fold {hexs(bad)} none",
+                     f"heal 1 1/10 {hexs(clean)}", f"cochap set:{co}", f"fold {hexs(prose3)} s", f"foldx {hexs(prose3)} s", "stats"]
+                hook_cases.append({"lines": L, "note": "callbacks registered on one of several instances, per schema class; unregistered again"})
+        return [{"name": "user callbacks: co-chaperone x on_misfold x strategies; per instance and per schema class", "cases": hook_cases},
+                {"name": "FoldedProtein.map: function behaviours x valid/invalid reports", "cases": map_cases},
                 {"name": "re-assigned extraction / repair tables (instance and subclass) x strategies", "cases": table_cases},
                 {"name": "several Chaperone instances, in-place edits of one instance's public strategies list", "cases": crowd_cases},
                 {"name": "healing loop: decay x max_retries x number of misfolds", "cases": heal_cases},
